@@ -1034,3 +1034,77 @@ Print Assumptions Blocks_total_partial_ok_or_remaining.
    A `but L` walk has to restate a lemma for every function between the site and parse_blocks (the allowed set is part
    of the statement); Proofs/BlocksTotal5Only.v is the complete list of those functions with scripts that need no
    invariant (copy it with the new allowed set; only the functions that reach a site of L need a premise). *)
+
+(* ---- totality, sixth round (Proofs/BlocksTotal6*.v).
+   Walk 1 (Proofs/BlocksTotal6Pos.v, `but pos_sites`): NINE sites excluded, for EVERY input byte string and EVERY option
+   set.  The walk takes its invariant from the Ok-path lemmas of Proofs/BlocksPos.v (PIL: the line counter is L, every
+   node has 1 <= start line and 1 <= start column) instead of re-proving it: only the no-panic half is redone (tactic
+   `sat` derives PIL of every intermediate state from `f .. = Ok (.., st') -> PIL st -> PIL st'`).
+     mod.rs:finalize_borrowed:self.line_number - 1     evaluated only when curline_len <> 0, i.e. inside process_line,
+                                                       which adds 1 to the line counter first; curline_len = 0 in the
+                                                       prologue and in finalize_document (frame lemmas KC)
+     mod.rs:add_child:assert!(start_column > 0)        every caller passes S _ or 1, or (table.rs) a column made of the
+                                                       start column of a node of the tree and the offsets of a cell
+     table.rs:try_inserting_..:start.line + newlines - 1, try_opening_header / try_opening_row:start.column +
+       cell.start_offset - 1                           1 <= start line / column of the container
+     table.rs:try_inserting_..:content[..paragraph_offset], try_opening_header: the three subtractions of
+       header_row.paragraph_offset                     what `row` ANSWERS (Proofs/BlocksTotal6Row.v, pinned below):
+                                                       paragraph_offset <= |string|, <= start_offset and <= end_offset
+                                                       of every cell — for every byte string
+   Ok-path invariant 2 (Proofs/BlocksTotal6Val.v, pinned below as Blocks_total_partial_stored_values): every HtmlBlock
+   of the tree has block type 1..7, every Paragraph has a NUL-free content and at least as many line_offsets as its
+   content has LF bytes — through every function of the block phase, for every input (the lines are NUL-free and have
+   one LF: FeedProofs.lines_clean).  It is what excludes parse_html_block_prefix:unreachable!(), peek_char_n and
+   line_offsets[n]; the `but` walk that uses it (a copy of BlocksTotal6Pos.v with QI for PIL; the functions between
+   peek and finalize need the premise `nonul content`) is NOT done: the three sites stay in the list.
+   RESULT: parse_blocks o x is Ok or a Panic at one of the 26 sites of rem_sites6. *)
+From V Require Proofs.BlocksTotal6Row Proofs.BlocksTotal6Pos Proofs.BlocksTotal6Val Proofs.BlocksTotal6.
+
+Theorem Blocks_total_remaining_sites_list6 :
+  BlocksTotal6.rem_sites6 =
+  [ "mod.rs:finalize_borrowed:assert!(ast.open)";
+    "mod.rs:add_line:assert!(ast.open)";
+    "mod.rs:add_text_to_container:self.finalize(self.current).unwrap()";
+    "mod.rs:add_child:self.finalize(parent).unwrap()";
+    "mod.rs:add_line:str::from_utf8(&line[self.offset..]).unwrap()";
+    "mod.rs:handle_alert:String::from_utf8(tmp).unwrap()";
+    "mod.rs:handle_footnote:str::from_utf8(c).unwrap()";
+    "mod.rs:finalize_borrowed:String::from_utf8(tmp).unwrap()";
+    "mod.rs:resolve_reference_link_definitions:content[seeked..]";
+    "inlines.rs:link_label:str::from_utf8(raw_label).unwrap()";
+    "mod.rs:parse_reference_inline:String::from_utf8(clean_url).unwrap()";
+    "mod.rs:parse_reference_inline:String::from_utf8(clean_title).unwrap()";
+    "table.rs:try_inserting_table_header_paragraph:String::from_utf8(paragraph_content).unwrap()";
+    "strings.rs:split_off_front_matter:slice_from";
+    "strings.rs:split_off_front_matter:slice_to";
+    "strings.rs:line_at:slice";
+    "mod.rs:parse_html_block_prefix:unreachable!()";
+    "mod.rs:finalize_borrowed:assert!(pos < content.len())";
+    "mod.rs:finalize_borrowed:content.as_bytes()[pos]";
+    "table.rs:try_inserting_table_header_paragraph:container_ast.line_offsets[n]";
+    "table.rs:try_opening_header:content.len() - 2";
+    "table.rs:try_opening_header:content.len() - 2 - header_row.paragraph_offset";
+    "inlines.rs:peek_char_n:assert!(*c > 0)";
+    "strings.rs:remove_trailing_blank_lines:line.len() - 1";
+    "strings.rs:chop_trailing_hashtags:line.len() - 1";
+    "strings.rs:chop_trailing_hashtags:line[n]" ].
+Proof. vm_compute. reflexivity. Qed.
+Print Assumptions Blocks_total_remaining_sites_list6.
+
+Theorem Blocks_total_partial_ok_or_remaining6 : forall o x,
+  (exists r, parse_blocks o x = Ok r) \/ (exists s, parse_blocks o x = Panic s /\ In s BlocksTotal6.rem_sites6).
+Proof. exact BlocksTotal6.parse_blocks_ok_or_rem6. Qed.
+Print Assumptions Blocks_total_partial_ok_or_remaining6.
+
+(* what table.rs `row` answers, for every byte string *)
+Theorem Blocks_total_partial_row_answers : forall s sp po cells,
+  row s sp = Ok (Some (po, cells)) ->
+  po <= List.length s /\ Forall (fun c => po <= ce_start c /\ po <= ce_end c) cells.
+Proof. exact BlocksTotal6Row.row_facts. Qed.
+Print Assumptions Blocks_total_partial_row_answers.
+
+(* stored values of the tree the block phase answers, for every input and every option set *)
+Theorem Blocks_total_partial_stored_values : forall o x r,
+  parse_blocks o x = Ok r -> BlocksPos.all_info BlocksTotal6Val.Qn (br_root r).
+Proof. exact BlocksTotal6Val.parse_blocks_val. Qed.
+Print Assumptions Blocks_total_partial_stored_values.
